@@ -908,12 +908,18 @@ def remap_by_types(
                 self._found_types[t_node] = self.lookup_type(t_node.value.elts[index])
             elif ((dc := self.lookup_type(t_node.value)) is not None) and is_dataclass(dc):
                 dc_types = get_type_hints(dc)
-                _slice = ast.literal_eval(t_node.slice)
-                if _slice not in dc_types:
-                    raise ValueError(
-                        f"Key {ast.unparse(t_node.slice)} not found in dataclass/dictionary {dc}"
-                    )
-                self._found_types[node] = dc_types[_slice]
+                if isinstance(t_node.slice, ast.Constant):
+                    _slice = t_node.slice.value
+                    if _slice not in dc_types:
+                        raise ValueError(
+                            f"Key {ast.unparse(t_node.slice)} not found in dataclass/dictionary "
+                            f"{dc}"
+                        )
+                    self._found_types[node] = dc_types[_slice]
+                else:
+                    # The key is only known when the query runs - so is the type.
+                    self._found_types[node] = Any
+                    self._found_types[t_node] = Any
             else:
                 inner_type = unwrap_iterable(self.lookup_type(t_node.value))
                 self._found_types[node] = inner_type
